@@ -197,7 +197,7 @@ def wrapped_strings():
     return out
 
 
-CONTEXTS = ("top", "list-elem", "list-mid", "dict-val", "arg-of-call", "arg-of-call-first", "bound-then-returned", "rebound-and-aliased", "return-rebound", "return-then-more", "return-uses-itself", "return-then-error", "same-call-text-twice")
+CONTEXTS = ("top", "list-elem", "list-mid", "dict-val", "arg-of-call", "arg-of-call-first", "bound-then-returned", "rebound-and-aliased", "return-rebound", "return-then-more", "return-uses-itself", "return-then-error", "same-call-text-twice", "odd-names")
 
 
 CONTEXTS3 = ("top", "dict-val", "arg-of-call-first", "rebound-and-aliased", "return-rebound", "return-then-error", "same-call-text-twice")
@@ -232,6 +232,10 @@ def in_context(call, ctx):
         # (a seeded per-query memo keyed by the call's source text returned the first result again)
         twice = ("call", "args2", (("var", "w"), call))
         return pre + (("w", ("int", 1)), ("p", twice), ("w", ("list", (("int", 2),))), ("q", twice), ("RETURN", ("list", (("var", "p"), ("var", "q")))))
+    if ctx == "odd-names":
+        # identifiers that are legal but unusual: leading underscore, a lone underscore, digits inside,
+        # capitals, a name that begins like RETURN (seeded: the variable scanner required a letter first)
+        return pre + (("_t", call), ("_", ("var", "_t")), ("T_2x", ("var", "_")), ("RETURNED", ("var", "T_2x")), ("RETURN", ("list", (("var", "RETURNED"), ("var", "_t"), ("var", "v")))))
     if ctx == "return-then-error":
         return pre + (("RETURN", call), ("x", ("call", "no_such_function", ())))
     raise ValueError(ctx)
